@@ -971,7 +971,8 @@ def _meek_rule1(graph: CPDAG, i: str, j: str) -> bool:
 
     # Check if i-j.
     if graph.has_edge(i, j, graph.undirected_edge_name):
-        for k in graph.predecessors(i):
+        # only the parents of i (k -> i) qualify; ``predecessors`` would return all ancestors
+        for k in graph.parents(i):
             # Skip if k and j are adjacent because then it is a
             # shielded triple
             if j in graph.neighbors(k):
